@@ -304,7 +304,8 @@ pub fn obs_event_over<P: PT>(
             }
         }
     }
-    json!({"a": "Obs", "E": e_json, "iter": iter_json, "len": m.len(), "empty": m.is_empty(), "qs": qs, "vd": vd, "fd": fd})
+    json!({"a": "Obs", "E": e_json, "iter": iter_json, "len": m.len(), "empty": m.is_empty(), "qs": qs, "vd": vd, "fd": fd,
+           "t": Coll::<P>::tree(m, ctx)})
 }
 
 fn obs_event<P: PT>(g: &mut Gen, ctx: &Ctx, m: &PrefixMap<P, i32>) -> Value {
